@@ -266,10 +266,11 @@ int start(m_mod_t *mod, bool starting) {
         break;
     case -1:
         /* on_start() hook returned false, we need to stop this module right away (unless it already did) */
-        if (m_mod_is(mod, M_MOD_RUNNING | M_MOD_PAUSED)) {
-            stop(mod, true);
-        }
         ret = 0;
+        if (m_mod_is(mod, M_MOD_RUNNING | M_MOD_PAUSED) && stop(mod, true) == -ENOENT) {
+            /* module was deregistered in on_stop() hook: it may be gone, tell the caller */
+            ret = -ENOENT;
+        }
         break;
     case -ENOENT:
         // module was deregistered in on_start() hook
